@@ -148,6 +148,9 @@ func checkC20(P *core.Program, R *core.Report) {
 		paired := app != nil && send != nil && sameControlFrom(ff, app, send)
 		R.Add("C20-create-pair", cp.fn, "escrow transfer ↔ stored order", P.Pos(fn.Pos()), paired && sendOK,
 			"a pending order is stored exactly when its "+cp.amountField+" was moved from the owner into the order's escrow")
+		if app != nil && send != nil {
+			CheckCallErrorGated(P, R, "C20-pair-error-gated", cp.fn, ff, send, []ssa.Instruction{app}, false, "escrow transfer")
+		}
 	}
 	for _, cp := range []struct{ fn, remove, amountField string }{
 		{"x/tradeshield/keeper.msgServer.CancelSpotOrder", "x/tradeshield/keeper.Keeper.RemovePendingSpotOrder", "OrderAmount"},
@@ -194,6 +197,9 @@ func checkC20(P *core.Program, R *core.Report) {
 			}
 		}
 		R.Add("C20-cancel-pair", cp.fn, "refund ↔ RemovePending", P.Pos(fn.Pos()), ok, "cancelling removes the order and refunds the escrow (the refund may only be skipped for an empty escrow)")
+		if rm != nil && len(sends) == 1 {
+			CheckCallErrorGated(P, R, "C20-pair-error-gated", cp.fn, ff, sends[0], []ssa.Instruction{rm}, true, "escrow refund")
+		}
 		// the amount refunded is the escrow itself: everything the escrow address holds, or the
 		// very coin the create handler escrowed (the order's own field, whole) — not a coin
 		// re-assembled from a denom and an amount looked up separately
